@@ -172,7 +172,11 @@ pub fn run_c11_case(case: &MergeCase, c: &mut Counters, work: &std::path::Path) 
         return (None, false, s.ops);
     }
     let Op::Merge { h, left, right } = &case.merge else { return (None, false, s.ops) };
-    let Some(hm) = Model::build(case.n, case.cap, h) else { return (None, false, s.ops) };
+    let h_cap = crate::ops::h_capacity(case.cap, h);
+    if h_cap > case.cap {
+        c.inc("c11.right-graphs-with-a-larger-capacity-and-ids-beyond-the-left-one's");
+    }
+    let Some(hm) = Model::build(case.n, h_cap, h) else { return (None, false, s.ops) };
     let Some(plan) = s.m.plan_merge(&hm, *left, *right) else {
         c.inc("c11.case-outside-quantifier");
         return (None, false, s.ops);
@@ -189,7 +193,7 @@ pub fn run_c11_case(case: &MergeCase, c: &mut Counters, work: &std::path::Path) 
         //  the case is outside the quantifier; a change made BY merge is caught below against a twin of h)
         let _ = hg;
         {
-            let mut h2 = new_graph(case.n, case.cap);
+            let mut h2 = new_graph(case.n, crate::ops::h_capacity(case.cap, h));
             let mut u2 = 0u64;
             for hop in h {
                 let _ = crate::rec::exec_raw(&mut h2, hop, work, &mut u2, &labels);
@@ -241,7 +245,7 @@ pub fn run_c11_case(case: &MergeCase, c: &mut Counters, work: &std::path::Path) 
     }
     // the right graph is unchanged (compare with a freshly built twin of it)
     if let Some((hg, _)) = &o.merge_h {
-        let mut h2 = new_graph(case.n, case.cap);
+        let mut h2 = new_graph(case.n, crate::ops::h_capacity(case.cap, h));
         let mut u2 = 0u64;
         for hop in h {
             let _ = crate::rec::exec_raw(&mut h2, hop, work, &mut u2, &labels);
@@ -475,8 +479,10 @@ fn gen_c11_case(seed: u64, thorough: bool) -> MergeCase {
     let hk = if tight { rng.range(1, cap.min(max_v)) } else { rng.range(1, max_v.min(cap / 3).max(1)) };
     let ht = random_parent(&mut rng, hk, n);
     let mut hids: Vec<usize> = vec![];
+    // one right graph in four has a larger capacity than the left one and uses ids beyond it
+    let h_span = if rng.chance(1, 4) { cap + rng.range(1, 40) } else { cap };
     while hids.len() < hk {
-        let v = rng.below(cap);
+        let v = if h_span > cap && rng.chance(1, 2) { rng.range(cap, h_span - 1) } else { rng.below(cap) };
         if !hids.contains(&v) {
             hids.push(v);
         }
